@@ -213,6 +213,37 @@ func runCheck(o *checkOpts) (int, error) {
 		}
 	}
 
+	for _, which := range prop.Rel {
+		if o.only != "" && !strings.Contains(which, o.only) {
+			continue
+		}
+		tierOnly := ""
+		if i := strings.Index(which, "@"); i >= 0 {
+			which, tierOnly = which[:i], which[i+1:]
+		}
+		if tierOnly == "thorough" && o.tier != "thorough" {
+			continue
+		}
+		e := NewEnc(L)
+		e.tier = o.tier
+		func() {
+			defer func() {
+				if r := recover(); r != nil {
+					encErrs = append(encErrs, fmt.Sprintf("encoder failure in rel %s: %v", which, r))
+					if o.verbose {
+						panic(r)
+					}
+				}
+			}()
+			e.relObligations(which)
+		}()
+		encs = append(encs, e)
+		encErrs = append(encErrs, e.errs...)
+		for _, ob := range e.obls {
+			all = append(all, oblResult{O: ob, E: e, Fn: "rel:" + which})
+		}
+	}
+
 	// solve
 	var wg sync.WaitGroup
 	sem := make(chan struct{}, 14)
